@@ -1817,25 +1817,36 @@ attribute): after ANY script `pre` on ANY loader - whatever seeds were stored be
 epochs were materialised under them, by passes, `len()` or look-ups -, `sampler.base_seed = s;
 loader.epoch = e; for batch in loader` delivers exactly the pass of the loader `⟨cfg', sampler
 configuration, epoch e⟩` on the ordering `src s e`, where the sampler configuration, `lens`, `nb`,
-`B`, `dynamic` are the constructor's and `cfg'.drop` is the drop flag as last assigned: a function of
-the constructor arguments, the drop flag in force and (s, e), of nothing else. -/
+`B`, `dynamic` are the constructor's and `cfg'.drop` is the drop flag AS LAST ASSIGNED in `pre`
+(`dropAfter`; audit F: this clause was claimed in the text but not stated), collated under the
+presentation flags as last assigned in `pre` (`presentAfterS`): a function of the constructor
+arguments, the drop / presentation flags in force and (s, e), of nothing else. -/
 theorem C14_reseed_seed_epoch (src : Nat → Nat → List Nat) (pre : List SOp) (z : Seeded) (s e : Nat) :
     let z' := (Seeded.exec src pre z).2
     let l := z'.view.session.loader
+    let c0 := z.view.session.loader.cfg
     (Seeded.exec src [.setSeed s, .v (.io (.setEpoch e)), .v (.io .serve)] z').1.getLast?
         = some (.v (.io .serve),
-            some (.pass (Loader.serve (src s) ⟨l.cfg, ⟨l.sampler.cfg, e⟩⟩).1, z'.view.present)) ∧
+            some (.pass (Loader.serve (src s)
+                    ⟨⟨c0.lens, c0.nb, c0.B, c0.dynamic, dropAfter c0.drop pre⟩,
+                     ⟨z.view.session.loader.sampler.cfg, e⟩⟩).1,
+                  presentAfterS z.view.present pre)) ∧
     l.sampler.cfg = z.view.session.loader.sampler.cfg ∧
-    l.cfg = { z.view.session.loader.cfg with drop := l.cfg.drop } := by
-  intro z' l
+    l.cfg = { c0 with drop := dropAfter c0.drop pre } := by
+  intro z' l c0
   obtain ⟨h1, h2, h3, h4, h5⟩ := Seeded.exec_fixed src pre z
-  refine ⟨rfl, h1, ?_⟩
-  show l.cfg = ⟨_, _, _, _, _⟩
-  have e2 : l.cfg.lens = z.view.session.loader.cfg.lens := h2
-  have e3 : l.cfg.nb = z.view.session.loader.cfg.nb := h3
-  have e4 : l.cfg.B = z.view.session.loader.cfg.B := h4
-  have e5 : l.cfg.dynamic = z.view.session.loader.cfg.dynamic := h5
-  rw [← e2, ← e3, ← e4, ← e5]
+  have h6 : l.cfg.drop = dropAfter c0.drop pre := Seeded.exec_drop src pre z
+  have h7 : z'.view.present = presentAfterS z.view.present pre := Seeded.exec_present src pre z
+  have hc : l.cfg = ⟨c0.lens, c0.nb, c0.B, c0.dynamic, dropAfter c0.drop pre⟩ := by
+    have e2 : l.cfg.lens = c0.lens := h2
+    have e3 : l.cfg.nb = c0.nb := h3
+    have e4 : l.cfg.B = c0.B := h4
+    have e5 : l.cfg.dynamic = c0.dynamic := h5
+    rw [← e2, ← e3, ← e4, ← e5, ← h6]
+  have hs : l.sampler.cfg = z.view.session.loader.sampler.cfg := h1
+  refine ⟨?_, hs, hc⟩
+  rw [← hc, ← hs, ← h7]
+  rfl
 
 /-- `C14_reseed_call_time` / `C14_reseed_seed_epoch` applied: two orderings per seed, epoch 0 served
 under seed 1, the seed reassigned, epoch 0 again: the second pass is seed 2's ordering. -/
@@ -1849,6 +1860,37 @@ example :
       = [[[0, 1], [2]], [[1, 2], [0]]] := by
   simp [Seeded.exec, Seeded.step, View.step, View.new, Session.step, Session.new, Loader.serve, Loader.setEpoch,
     EpochSampler.iter, EpochSampler.samples, EpochSampler.islice, EpochSampler.everyNth, exSeededLoader, exSrc]
+  rfl
+
+/-! audit F: both theorems APPLIED to a script in which everything the statements speak about happens -
+an iterator started under seed 1 and still alive, `len()` and a look-up of epoch 0 under seed 1, the
+drop flag and a presentation flag assigned, the seed assigned twice. -/
+def exSeededPre : List SOp :=
+  [.v (.io .newIter), .v (.io (.next 0)), .v (.io .len), .v (.io (.peek 0)), .setSeed 5,
+   .v (.setDrop true), .v (.assign .batchFirst false), .setSeed 2]
+def exSeeded0 : Seeded := ⟨View.new exSeededLoader ⟨true, false, true, true, true⟩, 1⟩
+
+example : seedAfter 1 exSeededPre = 2 ∧ dropAfter false exSeededPre = true ∧
+    presentAfterS ⟨true, false, true, true, true⟩ exSeededPre = ⟨false, false, true, true, true⟩ := by decide
+
+/-- the live iterator goes on with seed 1's epoch-0 batches (`[2]` after `[0, 1]`) although the seed
+in force is 2 by then: `C14_reseed_call_time` with `o = next(it_0)` -/
+example : (Seeded.exec exSrc (exSeededPre ++ .v (.io (.next 0)) :: [.v (.io .serve)]) exSeeded0).1[exSeededPre.length]?
+    = some (.v (.io (.next 0)),
+        some (View.step (exSrc 2) (.io (.next 0)) (Seeded.exec exSrc exSeededPre exSeeded0).2.view).1) := by
+  have h := C14_reseed_call_time exSrc exSeededPre [.v (.io .serve)] (.io (.next 0)) exSeeded0
+  rw [show seedAfter exSeeded0.seed exSeededPre = 2 by decide] at h
+  exact h
+
+/-- epoch 0 again under seed 2 with the drop flag assigned: one full batch of seed 2's ordering, the
+incomplete one dropped - not seed 1's `[[0, 1], [2]]` (`C14_reseed_seed_epoch`) -/
+example : (Seeded.exec exSrc [.setSeed 2, .v (.io (.setEpoch 0)), .v (.io .serve)]
+      (Seeded.exec exSrc exSeededPre exSeeded0).2).1.getLast?
+    = some (.v (.io .serve), some (.pass (.ok ([[1, 2]], none)), ⟨false, false, true, true, true⟩)) := by
+  rw [(C14_reseed_seed_epoch exSrc exSeededPre exSeeded0 2 0).1]
+  simp [exSeeded0, exSeededPre, dropAfter, SOp.dropOf, presentAfterS, SOp.presentOf, VOp.apply, Present.set,
+    View.new, Session.new, Loader.serve, EpochSampler.iter, EpochSampler.samples, EpochSampler.islice,
+    EpochSampler.everyNth, exSeededLoader, exSrc]
   rfl
 
 end PdtVerif.Batching
